@@ -225,6 +225,244 @@ fn handshake(ctx: &mut Ctx) {
     }
 }
 
+
+/// "An admitted peer is registered exactly once, under the identity it announced or else a fresh
+/// unique one": 2..4 admissible peers on one socket, each announcing no identity, an empty one, or
+/// a distinct non-empty one (edge shapes included); afterwards every peer must still be a peer
+/// (its connection open, its traffic flowing exactly once) and the identities the socket reports
+/// must be the announced ones, resp. pairwise distinct.
+fn registration(ctx: &mut Ctx) {
+    world::swarm(ctx, SwarmOpts::default());
+    let kind = ALL_KINDS[(ctx.idx % 9) as usize];
+    let n = 2 + ctx.plan(3) as usize;
+    let idopt: Vec<u8> = (0..n).map(|_| ctx.plan(8) as u8).collect();
+    let dial: Vec<bool> = (0..n).map(|_| ctx.plan(3) == 0).collect();
+    let ptype: Vec<&'static str> = (0..n).map(|_| kind.peers()[ctx.plan(kind.peers().len() as u64) as usize]).collect();
+    let starts: Vec<u32> = (0..n).map(|_| ctx.plan(12) as u32).collect();
+    let ident = |i: usize| -> Option<Vec<u8>> {
+        let b = i as u8 + 1;
+        match idopt[i] {
+            0 => None,
+            1 => Some(vec![]),
+            2 => Some(format!("peer-{i}").into_bytes()),
+            3 => Some(vec![b; 255]),
+            4 => Some(vec![0, b]),          // leading zero byte (libzmq reserves these for generated ids)
+            5 => Some(vec![b]),
+            6 => Some(vec![0xff, b, 0, 0]), // trailing zero bytes
+            _ => Some(vec![b' ', b, b'\n']),
+        }
+    };
+    let idents: Vec<Option<Vec<u8>>> = (0..n).map(ident).collect();
+    struct R {
+        conns: Vec<Option<(std::sync::Arc<rt::net::Conn>, u16, usize)>>,
+        keep: Vec<Option<RawPeer>>,
+        events: Vec<(u16, Vec<u8>, bool)>, // (port, identity, accepted)
+        got: Vec<(u16, u32)>,
+        per_conn_msgs: Vec<usize>,
+        dial_ports: Vec<u16>,
+        done: bool,
+        connect_failed: Option<String>,
+    }
+    let r = Rc::new(RefCell::new(R { conns: vec![None; n], keep: (0..n).map(|_| None).collect(), events: vec![], got: vec![], per_conn_msgs: vec![], dial_ports: vec![0; n], done: false, connect_failed: None }));
+    let r2 = r.clone();
+    let (idents2, dial2, ptype2) = (idents.clone(), dial.clone(), ptype.clone());
+    rt::task::spawn_local("app", async move {
+        let (idents, dial, ptype) = (idents2, dial2, ptype2);
+        let mut sock = AnySock::new(kind, None);
+        let mut mon = sock.monitor();
+        let ep = sock.bind("tcp://127.0.0.1:0").await.expect("bind").to_string();
+        let judged_sub = matches!(kind, Kind::Pub | Kind::Xpub);
+        let mut accs = Vec::new();
+        for i in 0..n {
+            let (r3, id, pt, start) = (r2.clone(), idents[i].clone(), ptype[i], starts[i]);
+            if dial[i] {
+                let (l, lep) = RawListener::bind("tcp://127.0.0.1:0").expect("listen");
+                r2.borrow_mut().dial_ports[i] = world::parse_ep(&lep).2;
+                let acc = rt::task::spawn_local("acceptor", async move {
+                    let Ok(mut p) = l.accept().await else { return };
+                    r3.borrow_mut().conns[i] = Some((p.conn.clone(), 0, 1 - p.side));
+                    if judged_sub {
+                        p.conn.set_io(1 - p.side, |io| io.wyield_pm = 0);
+                        p.conn.set_cap(1 - p.side, 1 << 40);
+                    }
+                    let _ = p.hello(pt, id.as_deref()).await;
+                    r3.borrow_mut().keep[i] = Some(p);
+                    let _l = l;
+                    world::park().await;
+                });
+                accs.push((i, lep, acc));
+            } else {
+                let ep = ep.clone();
+                rt::task::spawn_local("peer", async move {
+                    for _ in 0..start {
+                        rt::task::yield_now().await;
+                    }
+                    let Ok(mut p) = RawPeer::connect(&ep) else { return };
+                    let port = p.s.local_addr().map(|a| a.port()).unwrap_or(0);
+                    r3.borrow_mut().conns[i] = Some((p.conn.clone(), port, 1 - p.side));
+                    if judged_sub {
+                        p.conn.set_io(1 - p.side, |io| io.wyield_pm = 0);
+                        p.conn.set_cap(1 - p.side, 1 << 40);
+                    }
+                    let _ = p.hello(pt, id.as_deref()).await;
+                    r3.borrow_mut().keep[i] = Some(p);
+                    world::park().await;
+                });
+            }
+        }
+        for (i, lep, _acc) in &accs {
+            if let Err(e) = sock.connect(lep).await {
+                r2.borrow_mut().connect_failed = Some(format!("connect to peer {i}: {e}"));
+                return world::park().await;
+            }
+        }
+        rt::task::idle().await;
+        while let Ok(Some(ev)) = mon.try_next() {
+            match ev {
+                SocketEvent::Accepted(zeromq::Endpoint::Tcp(_, port), id) => r2.borrow_mut().events.push((port, id.as_ref().to_vec(), true)),
+                SocketEvent::Connected(zeromq::Endpoint::Tcp(_, port), id) => r2.borrow_mut().events.push((port, id.as_ref().to_vec(), false)),
+                _ => {}
+            }
+        }
+        // ---- every admitted peer is a peer: traffic, exactly once ------------------------------------
+        let conns: Vec<(std::sync::Arc<rt::net::Conn>, usize)> = r2.borrow().conns.iter().flatten().map(|c| (c.0.clone(), c.2)).collect();
+        let mut peers: Vec<RawPeer> = r2.borrow_mut().keep.iter_mut().filter_map(|p| p.take()).collect();
+        if conns.len() == n && peers.len() == n {
+            let base: Vec<usize> = conns.iter().map(|(c, side)| rc::parse_stream(&c.tap_from(*side)).messages().len()).collect();
+            if kind.has_recv() && kind != Kind::Req {
+                for i in 0..n {
+                    let mut m: Vec<Vec<u8>> = if kind == Kind::Rep { vec![vec![]] } else { vec![] };
+                    let mut body = tagged(i as u16, 0, &[3]);
+                    if kind == Kind::Xpub {
+                        body[0].insert(0, 1); // a subscription message whose topic carries the tag
+                    }
+                    m.extend(body);
+                    let _ = peers[i].send_msg(&m).await;
+                }
+                while let Some(res) = rt::future::or_idle(sock.recv()).await {
+                    match res {
+                        Ok(m) => {
+                            if let Some(t) = world::tag_of(&from_zmq(&m)) {
+                                r2.borrow_mut().got.push(t);
+                            }
+                            if kind == Kind::Rep {
+                                let _ = sock.send(to_zmq(&[b"r".to_vec()])).await;
+                            }
+                        }
+                        Err(_) => break,
+                    }
+                }
+            } else {
+                if kind == Kind::Pub {
+                    for p in peers.iter_mut() {
+                        let _ = p.send_msg(&[vec![1]]).await;
+                    }
+                    rt::task::idle().await;
+                }
+                let rounds = if kind == Kind::Pub { 1 } else { n };
+                for k in 0..rounds {
+                    if sock.send(to_zmq(&tagged(9, k as u32, &[3]))).await.is_err() {
+                        break;
+                    }
+                    if kind == Kind::Req {
+                        // whoever got the request answers it
+                        rt::task::idle().await;
+                        for (j, (c, side)) in conns.iter().enumerate() {
+                            let have = rc::parse_stream(&c.tap_from(*side)).messages().len();
+                            let answered = r2.borrow().per_conn_msgs.get(j).copied().unwrap_or(0);
+                            if have - base[j] > answered {
+                                let _ = peers[j].send_msg(&[vec![], b"ok".to_vec()]).await;
+                                let mut rr = r2.borrow_mut();
+                                if rr.per_conn_msgs.len() < n {
+                                    rr.per_conn_msgs.resize(n, 0);
+                                }
+                                rr.per_conn_msgs[j] += 1;
+                            }
+                        }
+                        let _ = rt::future::or_idle(sock.recv()).await;
+                    }
+                }
+                rt::task::idle().await;
+                let now: Vec<usize> = conns.iter().map(|(c, side)| rc::parse_stream(&c.tap_from(*side)).messages().len()).collect();
+                r2.borrow_mut().per_conn_msgs = now.iter().zip(base.iter()).map(|(a, b)| a - b).collect();
+            }
+        }
+        rt::task::idle().await;
+        r2.borrow_mut().done = true;
+        world::park().await;
+        drop(sock);
+        drop(peers);
+    });
+    let end = ctx.sim.run(400_000);
+    let tag = format!("{} with {n} admissible peers announcing identities {:?} (dialled: {:?})", kind.name(), idents.iter().map(|i| i.as_ref().map(|b| world::hex(&b[..b.len().min(6)]))).collect::<Vec<_>>(), dial);
+    if end == rt::RunEnd::Budget {
+        ctx.violation("no_quiescence", format!("{tag}: no quiescence"));
+    }
+    ctx.check_panics();
+    let o = r.borrow();
+    if let Some(e) = &o.connect_failed {
+        ctx.violation("compatible_peer_not_admitted", format!("{tag}: {e}"));
+    } else if o.done && o.conns.iter().all(|c| c.is_some()) {
+        // one admission event per peer, under the announced identity
+        let mut reported: Vec<Option<Vec<u8>>> = vec![None; n];
+        for i in 0..n {
+            let (_, port, _) = o.conns[i].as_ref().unwrap();
+            let evs: Vec<&(u16, Vec<u8>, bool)> = if dial[i] { o.events.iter().filter(|e| !e.2 && e.0 == o.dial_ports[i]).collect() } else { o.events.iter().filter(|e| e.2 && e.0 == *port).collect() };
+            if evs.len() != 1 {
+                ctx.violation("not_registered_exactly_once", format!("{tag}: peer {i} has {} admission events on the monitor", evs.len()));
+                continue;
+            }
+            reported[i] = Some(evs[0].1.clone());
+            if let Some(a) = &idents[i] {
+                if !a.is_empty() && evs[0].1 != *a {
+                    ctx.violation("registered_under_other_identity", format!("{tag}: peer {i} announced identity {} but was registered as {}", world::hex(a), world::hex(&evs[0].1)));
+                }
+            }
+        }
+        for i in 0..n {
+            for j in 0..i {
+                if let (Some(a), Some(b)) = (&reported[i], &reported[j]) {
+                    if a == b {
+                        ctx.violation("identity_not_unique", format!("{tag}: peers {j} and {i} are both registered under identity {}", world::hex(a)));
+                    }
+                }
+            }
+        }
+        for i in 0..n {
+            let (c, _, side) = o.conns[i].as_ref().unwrap();
+            if c.released(*side) {
+                ctx.violation("admitted_peer_dropped", format!("{tag}: the socket closed its side of peer {i}'s connection although the peer was admitted and nothing failed"));
+            }
+        }
+        if kind.has_recv() && kind != Kind::Req {
+            for i in 0..n {
+                let cnt = o.got.iter().filter(|t| t.0 == i as u16).count();
+                if cnt != 1 {
+                    ctx.violation("admitted_peer_traffic", format!("{tag}: the probe message of peer {i} was delivered {cnt} times"));
+                }
+            }
+        } else if kind == Kind::Pub {
+            for (i, c) in o.per_conn_msgs.iter().enumerate() {
+                if *c != 1 {
+                    ctx.violation("admitted_peer_traffic", format!("{tag}: subscriber {i} received {c} copies of one published message"));
+                }
+            }
+        } else if o.per_conn_msgs.len() == n {
+            for (i, c) in o.per_conn_msgs.iter().enumerate() {
+                if *c != 1 {
+                    ctx.violation("admitted_peer_traffic", format!("{tag}: {n} sends over {n} registered peers, peer {i} received {c}"));
+                }
+            }
+        }
+        ctx.nontrivial();
+    } else if end == rt::RunEnd::Quiescent && ctx.sim.rt.panics.borrow().is_empty() {
+        ctx.violation("stuck", format!("{tag}: the registration scenario never completed"));
+    }
+    if ctx.want_sample {
+        ctx.out.sample = Some(tag);
+    }
+}
+
 /// side check (a pure enumeration, labelled as such): all 144 compatibility queries
 fn compat_table(ctx: &mut Ctx) {
     world::plain(ctx);
@@ -257,10 +495,11 @@ pub fn def() -> PropDef {
     PropDef {
         id: "C04",
         level: "fault_enumeration",
-        rule: "handshake: grid = local socket type (9) x peer Socket-Type (12 names, unknown, missing) x version {1.0,2.1,3.0,3.1,4.0} x mechanism {NULL,PLAIN,CURVE,unknown} x signature {ok, byte 0 wrong, byte 9 wrong} x identity {none, empty, 1, 255, 256 bytes} x first item {READY, other command, message} x side {accepted, connected} = 226800 scripted handshakes, each with drawn segmentation/schedule, compared with a reference admission predicate written from the statement and the RFC compatibility table (thorough: enumerated completely; quick: pseudo-random sample); observables: application message exchanged or not, monitor Accepted/AcceptFailed, connect() result, connection closed by the socket; compat_table: the 144 SocketType::compatible queries (pure enumeration, a side check); distinct = distinct (configuration, plan, schedule, transport)",
+        rule: "handshake: grid = local socket type (9) x peer Socket-Type (12 names, unknown, missing) x version {1.0,2.1,3.0,3.1,4.0} x mechanism {NULL,PLAIN,CURVE,unknown} x signature {ok, byte 0 wrong, byte 9 wrong} x identity {none, empty, 1, 255, 256 bytes} x first item {READY, other command, message} x side {accepted, connected} = 226800 scripted handshakes, each with drawn segmentation/schedule, compared with a reference admission predicate written from the statement and the RFC compatibility table (thorough: enumerated completely; quick: pseudo-random sample); observables: application message exchanged or not, monitor Accepted/AcceptFailed, connect() result, connection closed by the socket; registration: socket type (9) x 2..4 admissible peers, each announcing no identity, an empty one or a distinct non-empty one (1 byte, 255 bytes, leading zero byte, trailing zero bytes, white space), joining by connect-in at drawn times or by being dialled: exactly one admission event per peer, under the announced identity resp. pairwise distinct ones, no admitted connection closed by the socket, and each peer's traffic flows exactly once (probe delivered once / one copy per subscriber / n sends reach n peers); compat_table: the 144 SocketType::compatible queries (pure enumeration, a side check); distinct = distinct (configuration, plan, schedule, transport)",
         assumptions: &["'known mechanism' is read as NULL, PLAIN or CURVE in the greeting, as the statement says (the library then performs the NULL handshake)", "the RFC table used by the oracle lists PAIR-PAIR, PUB/XPUB-SUB/XSUB, REQ-REP/ROUTER, DEALER-REP/DEALER/ROUTER, ROUTER-ROUTER, PUSH-PULL"],
         strata: vec![
             Stratum { name: "handshake", quick: 150_000, thorough: (GRID_SIZE) * 10, exhaustive: (false, true), run: handshake, what: "configuration grid of scripted handshakes vs the admission predicate" },
+            Stratum { name: "registration", quick: 60_000, thorough: 3_000_000, exhaustive: (false, false), run: registration, what: "2..4 admissible peers per socket, identities none / empty / distinct edge shapes, accepted or dialled: registered once, under the announced or a unique identity, and still peers afterwards" },
             Stratum { name: "compat_table", quick: 144, thorough: 144, exhaustive: (true, true), run: compat_table, what: "144 compatibility queries: total, symmetric, equal to the RFC table" },
         ],
     }
